@@ -236,3 +236,37 @@ Theorem writer_order_is_reader_order v k c m : is_std k = true ->
 Proof.
   intros Hk. rewrite reader_order_is_order_for, order_case_insensitive. apply order_tables_agree. exact Hk.
 Qed.
+
+(* ---------- defaults and exceptions (what differs between 1.2 and 2.0) ------------------ *)
+Definition default_order (v : las_version) (k : skind) : item_order :=
+  match lookup_order_entry v (sect_table_name k) order_definitions with
+  | Some (d, _) => d
+  | None => ValueDescr
+  end.
+Definition is_exception (v : las_version) (k : skind) (m : list N) : bool :=
+  match lookup_order_entry v (sect_table_name k) order_definitions with
+  | Some (_, ex) => existsb (str_eqb m) (listed ex) || existsb (str_eqb (upper m)) (listed ex)
+  | None => false
+  end.
+
+Lemma order_for_default v k m : is_std k = true -> is_exception v k m = false ->
+  order_for v k m = default_order v k.
+Proof.
+  intros Hk Hx. destruct (lookup_complete v k Hk) as [[dflt ex] He].
+  rewrite (order_for_entry _ _ _ _ _ Hk He). unfold default_order, is_exception in *. rewrite He in *.
+  apply orb_false_iff in Hx as [H1 H2]. unfold entry_order.
+  rewrite (ofe_unlisted _ _ None H1), (ofe_unlisted _ _ None H2). reflexivity.
+Qed.
+
+(* on the table as generated today: ~Well is description-first in 1.2 and value-first in 2.0 *)
+Lemma well_default_12 : default_order V12 KWell = DescrValue.
+Proof. vm_compute. reflexivity. Qed.
+Lemma well_default_20 : default_order V20 KWell = ValueDescr.
+Proof. vm_compute. reflexivity. Qed.
+Lemma well_20_no_exception m : is_exception V20 KWell m = false.
+Proof.
+  unfold is_exception.
+  assert (H : lookup_order_entry V20 (sect_table_name KWell) order_definitions = Some (ValueDescr, []))
+    by (vm_compute; reflexivity).
+  rewrite H. reflexivity.
+Qed.
